@@ -3,3 +3,4 @@ import YataDriver.Window
 import YataDriver.Methods
 import YataDriver.SpecEval
 import YataDriver.Action
+import YataDriver.Candle
